@@ -19,12 +19,12 @@ PROOF_LEVEL = {
     "C10": "C10x_history / C10x_region_history (the same over the extended alphabet FsExt.xop: the crashed media of an extended call are those of its base call, xcrash_disks_base) and C10_history is a theorem about the layer-B model: in any history of API calls, the medium after every prefix of the block-write sequence of every call (read off the device log; writes atomic and ordered) satisfies the crash invariant crash_inv (tree over the raw disk, unique names, clean tails, dot entries, chains sound and pairwise disjoint, sub-directories with initialised clusters; residue = lost chains and one stale size), whatever the free clusters held; step_crash proved for all 26 operations and outcomes. The extracted sound decider crash_inv_fast and the independent python checker both run on the implementation's crashed media. Not covered by a theorem: that the mount call itself succeeds on the crashed medium (region theorem: MBR/boot sector unchanged)",
     "C09": "C09x_history (the same over the extended alphabet FsExt.xop; a drop of a handle on the file counts as targeting it) and C09_history is a theorem about the layer-B model: a file present on the medium (path, entry, bytes) is present unchanged between calls and on every crashed medium of every later call of any history until a call targets it (op_targets); step_keeps_flushed proved for all 26 operations; with the C02 flush theorem (a successful flush/close puts exactly the API's view on the medium) this is the property for the model. The python oracle replays every prefix of the implementation's write log and re-reads flushed files with an independent reader",
     "C16": "C16x_history / C16x_history_flush (the same over the extended alphabet FsExt.xop: a dropped dirty File stores the record like a closed one) and C16_history (mirroring of every FAT copy, truthful-stays-truthful, unknown-stays-unknown, hint unknown or in range - after every call of every history of API calls) and C16_history_flush (the FAT32 information sector after a flush/close of a dirty file holds exactly the in-memory record: the number of free FAT entries when the count was truthful, untouched when unknown) are theorems about the layer-B model; the mount code establishes the hint range (C16_mount_hint_in_range, D40 repaired); no call panics or fails for want of space while a free entry exists whatever record was found at mount (C03_history, PrAlloc/PrCount). Recorded finding: stale-hint-kept",
-    "C03": "C03x_history (the same for the extended alphabet FsExt.xop: + iterate_dir_lfn, Drop of the File / Directory wrappers, Directory::change_dir - whose unwrap is proved unreachable -, the expect()ing File::length/offset/is_eof under the guard that the wrapper's handle is open) and C03_history / C03_after_every_call / C03_sound_after_history are theorems about the layer-B model for every history of API calls (all 26 operations, every outcome incl. refusals, DiskFull and NotEnoughSpace half-way failures): the global invariant fs_inv - directory tree over the raw disk, unique names, clean tail after the end marker, dot entries, chains in range / acyclic / end-marked / never through free-reserved-bad entries / pairwise disjoint / long enough for the size, pending chains of open files - holds after every call. Scope stated in the theorems: one mounted volume, no device faults, names outside the recorded class D29, fewer than 2^32 handle generations. The tie to the crate is the trace-exact correspondence; the extracted decider fs_inv_b (sound: fs_inv_b_sound) and the independent python checker both run on the implementation's images",
+    "C03": "C03s_history (sessions: for a manager with MAX_VOLUMES = 1 - the crate's default - OpenVol / CloseVol / Drop of a Volume are INSIDE the history: any number of mount / use / unmount cycles over the full extended alphabet keeps the session invariant - mounted: fs_inv with a record that is a relabel of the reference geometry, unmounted: a fresh manager over a medium with disk_inv and the information-sector signatures, so that the next mount succeeds -, no call panics, every write lies in a region of the volume; C03s_from_init starts it from init_state on a decider-accepted medium), C03x_history (the same for the extended alphabet FsExt.xop: + iterate_dir_lfn, Drop of the File / Directory wrappers, Directory::change_dir - whose unwrap is proved unreachable -, the expect()ing File::length/offset/is_eof under the guard that the wrapper's handle is open) and C03_history / C03_after_every_call / C03_sound_after_history are theorems about the layer-B model for every history of API calls (all 26 operations, every outcome incl. refusals, DiskFull and NotEnoughSpace half-way failures): the global invariant fs_inv - directory tree over the raw disk, unique names, clean tail after the end marker, dot entries, chains in range / acyclic / end-marked / never through free-reserved-bad entries / pairwise disjoint / long enough for the size, pending chains of open files - holds after every call. Scope stated in the theorems: one mounted volume, no device faults, names outside the recorded class D29, fewer than 2^32 handle generations. The tie to the crate is the trace-exact correspondence; the extracted decider fs_inv_b (sound: fs_inv_b_sound) and the independent python checker both run on the implementation's images",
     "C04": "C04_history is a theorem about the layer-B model for every history of API calls: the complete device-write list lies in the regions of the volume (FAT copies, FAT16 root region, data area, FAT32 information sector; C04_regions_not_outside: never MBR, boot sector, other partition, past the last cluster); C04_mount_layout / C04_open_volume_layout derive the region map from the checks of the mount code; per-call byte frames (slot, FAT entry, high nibble, info-sector fields, data range) are the C04_*_frame theorems. Recorded finding: the partition size is not compared with the BPB total (D38)",
     "C05": "C05_history (after any history of API calls with no file left open, in-use clusters = clusters on the chains of the live tree), C05_used_is_tree_and_pending (with open files: plus their pending chains), C05_delete_frees, C05_capacity (exactly free_entries allocations succeed, then NotEnoughSpace with nothing changed), C05_fill_free_refill for every number of cycles, and mgr_write_spec (Ok / DiskFull with exactly the stored prefix readable / NotEnoughSpace) are theorems about the layer-B model for all inputs",
     "C06": "C06_iterate_lfn_entries / _slots / _delivered / _listing / _total (VolumeManager::iterate_dir_lfn reports exactly the entries of iterate_dir, sees exactly the delivered slots of the directory, its long names are LfnModel.listing of those slots - so the C17 listing theorems apply to the file-system model - and it never panics from a state of the invariant) and C06_iterate / C06_find / C06_find_listed / C06_open_dir are complete theorems about the layer-B model: for every directory contents, every chain (FAT16 root, FAT16/FAT32 chains) and every state with a working device and a coherent cache, the listing is exactly the valid slots before the end marker in on-disk order, lookup is the first match, open_dir succeeds exactly for listed directory entries and designates the entry's cluster (0 -> root, \".\" -> the same directory)",
     "C07": "the decision tables of open_file_in_dir (six modes x missing/file/read-only/directory/already-open/dot names), delete_file_in_dir, make_dir_in_dir, open_dir and write on a read-only handle are theorems about the layer-B model for every state in which the handles resolve; every refusal leaves the state of the lookup (reads only)",
-    "C08": "wrapper layer: C08x_handles_ok_step (every extended operation draws at most one id), drops = closes, File::length/offset/is_eof return the record's values on an open handle and PANIC on a stale handle or under the lock (C08_wrapper_stale_panics / _locked_panics: an observation, these calls return no Result); handle freshness inside the 2^32 window (with its refutation beyond, known finding), stale-handle rejection without effect for every call (open_root_dir refuted: known finding), limits as an invariant of every op with the matching errors, volume rules, closing frees exactly one slot, truthful open-handle query, LockError without any effect for every result-returning op while the lock is held - all theorems about the layer-B model for all states and ops",
+    "C08": "sessions: C08s_cycle / C08s_sessions (after any history an unmounted manager mounts partition idx0 again with the next handle and a relabelled record, a mounted idle volume is closed by CloseVol and by dropping the Volume wrapper with the same final state; xstep_dirs: the directory table only ever gains root handles or records of the mounted volume); wrapper layer: C08x_handles_ok_step (every extended operation draws at most one id), drops = closes, File::length/offset/is_eof return the record's values on an open handle and PANIC on a stale handle or under the lock (C08_wrapper_stale_panics / _locked_panics: an observation, these calls return no Result); handle freshness inside the 2^32 window (with its refutation beyond, known finding), stale-handle rejection without effect for every call (open_root_dir refuted: known finding), limits as an invariant of every op with the matching errors, volume rules, closing frees exactly one slot, truthful open-handle query, LockError without any effect for every result-returning op while the lock is held - all theorems about the layer-B model for all states and ops",
 }
 
 def finish(run, env, pid, rule, extra=None, known_filter=None):
@@ -300,6 +300,30 @@ def common_tail(run, env, theorems, strict=False, oracle=None, what="property vi
         run.notes.append("%d scripts also differ between model and implementation" % len(dis))
     run.coverage["disagreements"] = len(dis)
 
+def special_name_scripts(env, rng, count):
+    """directed: entries whose 8.3 names use every legal punctuation mark, placed on the medium by the formatter (as
+    another operating system would) and created through the API: listed, looked up, opened and entered by name"""
+    hx = fsgen.hx
+    names = ["TE@T", "#$%&'()-.@{}", "~^_`!.-", "A@B.C@D", "@", "X.@"]
+    for j in range(count):
+        geo = fsgen.geometry(rng, None, ["f16_min", "f32_min", "f16_spc2", "f32_root5"])
+        img, meta = fsgen.build_image(rng, geo, populate=1)
+        v = meta["vol"]
+        for i, nm in enumerate(names[: 3 + j % 4]):
+            meta["files"]["/" + nm] = v.add_file(v.root, nm, bytes([65 + i]) * (10 + 300 * i))
+        d = v.add_dir(v.root, "D@R.{~}")
+        meta["dirs"]["/D@R.{~}"] = d
+        meta["files"]["/D@R.{~}/IN@.$$$"] = v.add_file(d, "IN@.$$$", b"inner")
+        path, dev = env.new_image(img, "special%d" % j)
+        meta = dict(meta); meta["dev0"] = dev
+        ops = ["openvol %d -> $v" % meta["slot"], "openroot $v -> $r", "iter $r", "iterlfn $r 64"]
+        for i, nm in enumerate(names):
+            ops += ["find $r %s" % hx(nm), "open $r %s RO -> $s%d" % (hx(nm), i), "read $s%d 40" % i, "close $s%d" % i]
+        ops += ["opendir $r %s -> $d" % hx("D@R.{~}"), "iter $d", "find $d %s" % hx("IN@.$$$"), "chdir $d %s -> $d" % hx(".."), "iter $d",
+                "open $r %s RWC -> $n" % hx("N@W.~1"), "write $n 20 1", "close $n", "mkdir $r %s" % hx("M@D"), "find $r %s" % hx("N@W.~1"),
+                "opendir $r %s -> $m" % hx("M@D"), "iter $m", "delete $r %s" % hx("TE@T"), "find $r %s" % hx("TE@T"), "iter $r"]
+        env.add_script("special%03d" % j, path, (1, 4, 4), ops, 5000, (), meta)
+
 def truncate_reuse_scripts(env, rng, count):
     """directed: a truncating open of a file whose first cluster is numbered ABOVE a free cluster (an earlier file was
     deleted), then writes through the truncated handle, a third file written meanwhile, everything read back"""
@@ -416,7 +440,8 @@ def c02_oracle(sc):
         return []
     dev = final_image(sc)
     g, flat, fprobs = tree_of(dev, sc["meta"]["slot"])
-    out = []
+    # "a modification time equal to the clock value at the last write": judged at the write itself (in-memory entry) ...
+    out = [p_ for p_ in probs if "modification time" in p_]
     if g is None:
         out.append("final medium does not mount")
     else:
@@ -441,6 +466,14 @@ def c02_oracle(sc):
                 out.append("%s: is a directory on the medium" % path)
             elif e.size != len(want) or (e.data or b"") != want:
                 out.append("%s: medium holds %d bytes, flushed contents have %d bytes%s" % (path, e.size, len(want), "" if e.size != len(want) else " (contents differ)"))
+            elif path in sp.flushed and path in sp.wstamp:
+                # written in this history and flushed afterwards: modification time = clock value at the last write
+                # (FAT encoding, two-second resolution), and the entry is marked as modified (archive attribute)
+                wd, wt = O.fat_stamp(sp.wstamp[path])
+                if (e.mdate, e.mtime) != (wd, wt):
+                    out.append("%s: modification time on the medium is %04x/%04x, the clock value at the last write encodes as %04x/%04x" % (path, e.mdate, e.mtime, wd, wt))
+                elif not (e.attr & 0x20):
+                    out.append("%s: written and flushed but the entry does not carry the archive attribute (attr %02x)" % (path, e.attr))
         for path in sp.dirs:
             if path and (path not in flat or not flat[path].is_dir):
                 if path.rsplit("/", 1)[-1][:1] == "\xe5" or any(seg[:1] == "\xe5" for seg in path.split("/")):
@@ -919,6 +952,7 @@ def check_C06(run, replay=None):
     corpus(env, rng, {"e5-name", "lfn-match"})
     grow_scripts(env, rng, max(n // 10, 4), big=True)
     wrapper_scripts(env, rng, max(n // 4, 12), weights=dict(iterlfn=12, chdir=8, iter=6, find=5, opendir=5, delete=4, open=6, write=2, read=0, seek=0, wquery=1))
+    special_name_scripts(env, rng, 4 if run.tier == "quick" else 16)
     env.run_all(writes=True)
     bad = 0
     for sc in env.scripts:
@@ -1023,6 +1057,9 @@ def c06_oracle(sc):
                     continue
                 # lookup succeeds exactly for names the listing contains: long-name fragments never match (D39)
                 hit = next((e for e in live if e.name == s11), None)
+                if tr.err(k) == "FilenameError":
+                    out.append("op %d: %s(%r) was refused with FilenameError, but %r is a valid 8.3 name%s" % (k, op[0], nm, nm, " that the directory lists" if hit else ""))
+                    continue
                 if op[0] == "find":
                     if okk != (hit is not None) and tr.err(k) in (None, "NotFound"):
                         if hit is None and s11[0] == 0xE5:
@@ -1066,6 +1103,19 @@ def two_volume_scripts(env, rng, count):
                "open $rb %s RWA -> $c3" % hx("CANARY.TXT"), "delete $rb %s" % hx("CANARY.TXT"),
                "write $x 5 1", "close $x", "close $y", "close $c2", "delete $ra %s" % hx("NEW%d.Y" % j), "iter $ra", "iter $rb"]
         env.add_script("twovol%03d" % j, path, (3, 8, 8), ops, 5000, (), meta)
+
+def label_fault_scripts(env, rng, count):
+    """directed: get_root_volume_label on a volume whose boot-sector label is blank (so the root directory is scanned
+    through an internally opened handle) with ONE device fault at each of the first device calls after the mount:
+    afterwards nothing may be left open - the open-handle query, the directory limit and close_volume tell"""
+    for j in range(count):
+        geo = fsgen.geometry(rng, None, ["f16_min", "f32_min", "f16_spc2"])
+        img, meta = fsgen.build_image(rng, geo, populate=1, blank_label=True, big_dir=(j % 2 == 1))
+        path, dev = env.new_image(img, "labelf%d" % j)
+        meta = dict(meta); meta["dev0"] = dev
+        ops = ["openvol %d -> $v" % meta["slot"], "label $v", "hasopen", "label $v", "hasopen",
+               "openroot $v -> $r1", "openroot $v -> $r2", "closedir $r1", "closedir $r2", "hasopen", "closevol $v", "hasopen"]
+        env.add_script("labelf%03d" % j, path, (2, 2, 2), ops, 5000, (2 + j % 9,), meta)
 
 def id_offset_scripts(env, rng, count):
     """directed: handle counters that start at 0 and just below 2^32 (the wrap is inside the script)"""
@@ -1254,6 +1304,7 @@ def check_C08(run, replay=None):
     corpus(env, rng, {"root-dir-stale-volume"})
     id_offset_scripts(env, rng, 5 if run.tier == "quick" else 20)
     two_volume_scripts(env, rng, 3 if run.tier == "quick" else 12)
+    label_fault_scripts(env, rng, 9 if run.tier == "quick" else 27)
     wrapper_scripts(env, rng, max(n // 6, 8), weights=dict(dropfile=6, dropdir=6, dropvol=3, openvol=3, chdir=6, wquery=4, open=8, opendir=6, openroot=3, bad=5, iterlfn=2))
     env.run_all()
     bad = 0
@@ -1609,13 +1660,26 @@ def check_C11(run, replay=None):
         meta = dict(meta); meta["dev0"] = dev
         ops = ["openvol %d -> $v" % meta["slot"], "label $v", "hasopen", "label $v", "openroot $v -> $r", "iter $r", "closedir $r", "hasopen", "closevol $v", "hasopen"]
         env.add_script("label%d" % j, path, (1, 4, 4), ops, 5000, (), meta)
+    # directed: lookups / creating opens / mkdir / listing in a sub-directory that spans several clusters (a FAT read
+    # lies between two directory clusters), names in the LAST cluster and absent names; every fault index is enumerated
+    for j, gname in enumerate(["f16_min", "f16_spc2", "f32_min"]):
+        geo = fsgen.geometry(rng, None, [gname])
+        img, meta = fsgen.build_image(rng, geo, populate=1, big_dir=True, blank_label=False)
+        path, dev = env.new_image(img, "walk%d" % j)
+        meta = dict(meta); meta["dev0"] = dev
+        last = max((p_ for p_ in meta["files"] if p_.startswith("/SUB/F")), key=lambda p_: int(p_[6:].split(".")[0]))[5:]
+        hx = fsgen.hx
+        ops = ["openvol %d -> $v" % meta["slot"], "openroot $v -> $r", "opendir $r %s -> $s" % hx("SUB"),
+               "find $s %s" % hx(last), "find $s %s" % hx("ABSENT.X"), "open $s %s RWCA -> $a" % hx(last), "close $a",
+               "open $s %s RWCT -> $b" % hx(last), "close $b", "mkdir $s %s" % hx(last), "opendir $s %s -> $q" % hx("DEEP"), "iter $s"]
+        env.add_script("walk%d" % j, path, (1, 4, 4), ops, 5000, (), meta)
     base = list(env.scripts)
     env.run_all(scripts=base)
     # a failure injected at every single device-call index (quick: strided), plus random multi-fault schedules
     extra = []
     for sc in base:
         ncalls = sum(1 for l in sc["impl"] if l.startswith("DEV "))
-        idxs = list(range(ncalls)) if (run.tier == "thorough" or sc["name"].startswith("label")) else sorted({rng.below(max(ncalls, 1)) for _ in range(14)})
+        idxs = list(range(ncalls)) if (run.tier == "thorough" or sc["name"].startswith(("label", "walk"))) else sorted({rng.below(max(ncalls, 1)) for _ in range(14)})
         for i in idxs:
             extra.append(env.add_script("%s-f%d" % (sc["name"], i), sc["img"], sc["limits"], sc["ops"], sc["id_offset"], [i], sc["meta"]))
         for m in range(2):
